@@ -3,28 +3,24 @@ use noodles_bgzf as bgzf;
 use noodles_core::Position;
 
 use super::Index;
-use crate::binning_index::index::reference_sequence::{bin::Chunk, parent_id, reg2bin};
+use crate::binning_index::index::reference_sequence::{bin::Chunk, reg2bin};
 
 /// A binned index.
 pub type BinnedIndex = IndexMap<usize, bgzf::VirtualPosition>;
 
 impl Index for BinnedIndex {
     fn min_offset(&self, min_shift: u8, depth: u8, start: Position) -> bgzf::VirtualPosition {
-        let end = start;
-        let mut bin_id = reg2bin(start, end, min_shift, depth);
+        // A record that intersects a region starting at `start` ends at or after `start`, i.e., it
+        // is in a bin whose interval ends at or after `start`. This includes ancestor bins, which
+        // hold records that span more than one smaller bin. The smallest offset of those bins is a
+        // lower bound of the offsets of all such records.
+        let beg = usize::from(start) - 1;
 
-        loop {
-            if let Some(position) = self.get(&bin_id) {
-                return *position;
-            }
-
-            bin_id = match parent_id(bin_id) {
-                Some(id) => id,
-                None => break,
-            }
-        }
-
-        bgzf::VirtualPosition::default()
+        self.iter()
+            .filter(|(id, _)| bin_end(**id, min_shift, depth) > beg)
+            .map(|(_, position)| *position)
+            .min()
+            .unwrap_or_default()
     }
 
     fn last_first_start_position(&self) -> Option<bgzf::VirtualPosition> {
@@ -42,6 +38,35 @@ impl Index for BinnedIndex {
             })
             .or_insert(chunk.start());
     }
+}
+
+// Returns the end (0-based, exclusive) of the interval covered by the bin with the given ID.
+fn bin_end(id: usize, min_shift: u8, depth: u8) -> usize {
+    let mut level = 0;
+    let mut first_id: usize = 0;
+
+    while level < depth {
+        let Some(next_first_id) = 1usize
+            .checked_shl(3 * u32::from(level))
+            .and_then(|len| first_id.checked_add(len))
+        else {
+            break;
+        };
+
+        if id < next_first_id {
+            break;
+        }
+
+        first_id = next_first_id;
+        level += 1;
+    }
+
+    let shift = u32::from(min_shift) + 3 * u32::from(depth - level);
+
+    1usize
+        .checked_shl(shift)
+        .and_then(|size| (id - first_id + 1).checked_mul(size))
+        .unwrap_or(usize::MAX)
 }
 
 #[cfg(test)]
